@@ -43,7 +43,7 @@ def build_family(family, variant, cases_path, subset_lines=None):
         return vlib.build(variant, EXACT_SOURCES)
     import gen_expr
     all_lines = subset_lines if subset_lines is not None else open(cases_path).read().splitlines()
-    gdir = os.path.join(vlib.CACHE, "gen_src", vlib.sha(vlib.tree_hash([cases_path]), "v1",
+    gdir = os.path.join(vlib.CACHE, "gen_src", vlib.sha(vlib.tree_hash([cases_path]), "v2",
                                                         vlib.sha("\n".join(sorted(subset_lines))) if subset_lines is not None else "all"))
     marker = os.path.join(gdir, "done")
     if not os.path.exists(marker):
@@ -181,6 +181,18 @@ def stateless(ctx, family, ops, variant="exact", prop_view=None, consts=None, ca
 def run_and_judge(ctx, family, binp, lines, view, confirm=True):
     wd = os.path.join(ctx.work, family)
     events, extra = vlib.exec_cases(binp, lines, os.path.join(wd, "exec"))
+    # interpolation has no full Level-I model that would show the correct result to fit TLC's integers:
+    # an event whose numbers do not fit is not judged (counted as unvalidated), not rejected
+    nbig = 0
+    if family.startswith("Interp"):
+        keep = [i for i, e in enumerate(events) if not ('"big":1' in e and '"op":"Interp"' in e)]
+        nbig = len(events) - len(keep)
+        if nbig:
+            if nbig > max(20, len(events) // 10):
+                raise MachineryFailure("%d of %d interpolation results do not fit TLC's integers" % (nbig, len(events)))
+            ctx.cov["unvalidated_big_results"] = ctx.cov.get("unvalidated_big_results", 0) + nbig
+            lines = [lines[i] for i in keep]
+            events = [events[i] for i in keep]
     rejected, n = vlib.validate("Trace_Stateless", "Trace_Stateless.cfg", {"PROP": view}, events, os.path.join(wd, "val"))
     ctx.cov["traces_validated_against_impl"] += n
     ctx.cov["evaluations"] += n
@@ -634,12 +646,12 @@ def c18(ctx):
         if c["tag"] == "foreign":
             return False
         if c["op"] == "OpApply":
-            return c["ast"]["k"] in ("Spl", "Prod", "Sum", "X", "Dx") and pick(c, 6 if quick else 2)
-        return pick(c, 40 if quick else 10)
+            return c["ast"]["k"] in ("Spl", "Prod", "Sum", "X", "Dx") and pick(c, 6 if quick else 12)
+        return pick(c, 40 if quick else 40)
     lines = [l for l in open(cp).read().splitlines() if opsel(json.loads(l))]
     fams.append(("Ops", cp, lines))
     counts = (2, 8) if quick else (2, 4, 8, 16)
-    rounds = 1 if quick else 3
+    rounds = 1 if quick else 2
     for fam, cp, lines in fams:
         for variant in ("exact_thr", "exactd", "tsan", "tsand"):
             if quick and variant == "tsand":
